@@ -33,6 +33,7 @@ struct Args {
     int depth = 1, depth2 = 0;
     Caps caps;
     size_t max_states = 0;
+    bool warm = false;  // run the state's query battery on the SAME object before every transition and after it (hidden caches)
     double deadline = 0;
     bool list_seeds = false, has_replay = false;
     std::set<std::string> known;  // rules of listed known findings: counted, not reported, search continues
@@ -57,6 +58,7 @@ static Args parse(int argc, char **argv) {
         else if (k == "--caps") { std::string c = nxt(); sscanf(c.c_str(), "%d,%d,%d,%d,%d,%d,%d", &a.caps.v, &a.caps.e, &a.caps.f, &a.caps.c, &a.caps.lf, &a.caps.lc, &a.caps.pool); }
         else if (k == "--max-states") a.max_states = std::stoul(nxt());
         else if (k == "--deadline") a.deadline = std::stod(nxt());
+        else if (k == "--warm") a.warm = std::stoi(nxt()) != 0;
         else if (k == "--list-seeds") a.list_seeds = true;
         else if (k == "--known") { std::string c = nxt(); size_t p = 0; while (p <= c.size()) { size_t q = c.find(',', p); if (q == std::string::npos) q = c.size(); if (q > p) a.known.insert(c.substr(p, q - p)); p = q + 1; } }
     }
@@ -178,6 +180,14 @@ int main(int argc, char **argv) {
                 rebuild(h, s);
                 if (!(hash128(sys_key(s)) == k0)) { found.push_back({h, {"harness:replay-divergence", "replaying a history twice gave different canonical keys"}}); break; }
                 Viols vs;
+                if (A.warm) {
+                    // every const query of the property's battery runs on this very object before the operation: state that a query
+                    // leaves behind (a cache, a scratch buffer) is then exposed to the operation and to the queries after it
+                    Viols w;
+                    g_phase = "warm-up";
+                    pc.cur_hist = h;
+                    pc.state_checks(s, w, st);
+                }
                 g_phase = "transition";
                 pc.transition(s, o, vs, st, A.seed, A.cfg, h);
                 ++transitions;
@@ -187,7 +197,9 @@ int main(int argc, char **argv) {
                         if (k == k0) noop_ops.push_back(o);
                         else { bool have = false; for (auto &a : acc_ops) if (a.first.k == o.k) have = true; if (!have) acc_ops.push_back({o, k}); }
                     }
-                    if (seen.insert(k).second) {
+                    const bool isnew = seen.insert(k).second;
+                    if (!isnew && A.warm) { g_phase = "state-check(warm)"; pc.cur_hist = h2; pc.state_checks(s, vs, st); }
+                    if (isnew) {
                         ++states;
                         g_phase = "state-check";
                         pc.cur_hist = h2;
